@@ -37,6 +37,19 @@ Definition part_seq (p t n : nat) : list nat :=
 Definition node := nat.
 
 Inductive answer := Has | NotFound | Maint | Err.
+
+(* what a remote node does with the replicator's request (ReplicateObjectToNode).
+   Only [RStored] means that the node holds the object afterwards; every other
+   outcome is a failure for HandleTask, whatever the status says. *)
+Inductive repans :=
+| RStored     (* request answered OK: the node accepted and stored the object *)
+| RMaint      (* answered with status NODE_UNDER_MAINTENANCE: nothing stored *)
+| RStatus     (* answered with any other failure status (already removed, access denied, ...) *)
+| RFail       (* transport failure: no answer *)
+| RNoConn.    (* no client for the node (clientConstructor.Get fails): request never sent *)
+
+Definition rep_stored (a : repans) : bool := match a with RStored => true | _ => false end.
+Definition rep_sent (a : repans) : bool := match a with RNoConn => false | _ => true end.
 Inductive otype := Regular | Tombstone | Lock | Link.
 Inductive mark := MDefault | MRedundant.
 
@@ -47,7 +60,7 @@ Record env := mkEnv {
   e_in_netmap : bool;
   e_mflag : node -> bool;      (* netmap.NodeInfo.IsMaintenance() *)
   e_head : node -> answer;     (* remote header read *)
-  e_rep : node -> bool;        (* ReplicateObjectToNode succeeds *)
+  e_rep : node -> repans;      (* outcome of ReplicateObjectToNode *)
   e_readable : bool            (* replicator can read the object from the local storage *)
 }.
 
@@ -83,9 +96,11 @@ Fixpoint ht_loop (e : env) (q : nat) (nodes : list node) : list node * list node
     | 0 => ([], [])
     | S q' =>
       if Nat.eqb n (e_local e) then ht_loop e q r   (* task.obj == nil: skipped *)
-      else if e_rep e n
-           then let '(s, k) := ht_loop e q' r in (n :: s, n :: k)
-           else let '(s, k) := ht_loop e q r in (n :: s, k)
+      else if rep_stored (e_rep e n)
+           then let '(s, k) := ht_loop e q' r in (n :: s, n :: k)   (* err == nil: quantity--, reported *)
+           else if rep_sent (e_rep e n)
+           then let '(s, k) := ht_loop e q r in (n :: s, k)         (* any error: logged, next node *)
+           else ht_loop e q r
     end
   end.
 
